@@ -144,6 +144,18 @@ Theorem C06_recover_never_crashes : forall sc tr s,
 Proof. exact recover_never_crashes. Qed.
 Print Assumptions C06_recover_never_crashes.
 
+(* The dispatcher cannot get stuck: in every reachable state that has not crashed, either
+   every event that has arrived is completely dispatched, or one of the dispatcher's own
+   steps (take the next event, snapshot, wrapper signals / enters its handler, a running
+   foreground handler returns, barrier) is enabled.  Together with C06_panic_isolated: a
+   recovered panic does not stop later events from being delivered. *)
+Theorem C06_dispatcher_progress : forall sc, wf_sc sc -> forall tr s,
+  exec sc (init sc) tr = Some s -> s_crashed s = false ->
+  s_disp s = DIdle (s_arrived s) \/
+  exists a s', step sc s a = Some s' /\ dispatch_action a = true.
+Proof. exact dispatcher_progress. Qed.
+Print Assumptions C06_dispatcher_progress.
+
 (* ---- trace acceptance ------------------------------------------------------------------------------ *)
 
 (* soundness of the executable checker: an accepted observation is what an observer sees
